@@ -81,7 +81,7 @@ def quat_in(rng, region):
     return rq.axang2q(ax, ang)
 
 
-UQ_REGIONS = ["generic", "pure", "real", "axis_aligned", "denormal", "tiny_angle", "near_pi"]
+UQ_REGIONS = ["generic", "pure", "real", "axis_aligned", "denormal", "tiny_angle", "near_pi", "octahedral"]
 
 
 def unit_quat(rng, region):
@@ -95,6 +95,21 @@ def unit_quat(rng, region):
         q = np.zeros(4)
         q[rng.integers(4)] = float(rng.choice([-1.0, 1.0]))
         return q
+    if region == "octahedral":
+        # the 48 unit quaternions of the cube's symmetries (quarter, half and third turns about its axes): products of two of them hit every exact
+        # coincidence - scalar part exactly 0, components exactly equal, exact half turns out of two quarter turns
+        kind = int(rng.integers(3))
+        if kind == 0:
+            q = np.zeros(4)
+            q[rng.integers(4)] = 1.0
+        elif kind == 1:
+            q = np.zeros(4)
+            i, j = rng.choice(4, 2, replace=False)
+            q[i], q[j] = 1.0, float(rng.choice([-1.0, 1.0]))
+            q /= np.sqrt(2.0)
+        else:
+            q = rng.choice([-0.5, 0.5], 4)
+        return q * float(rng.choice([-1.0, 1.0]))
     if region == "denormal":
         q = unit(rng)
         k = rng.integers(4)
